@@ -129,7 +129,7 @@ Section Classify.
                 | UStruct fs =>
                     Ok (mk_shape KdStruct (GNamed id) 0 None false
                           (map f_type (flat_fields (List.length (pr_types pr)) fs)))
-                | UPointer _ => Crash "interface conversion: *analysis.Pointer is not analysis.AnonymousType"
+                | UPointer _ => Diag ("named pointer types are not supported: " ++ id)
                 | UInterface _ | UOther _ => Diag ("unsupported type " ++ id)
                 | _ => Ok (mk_shape KdNamed (GNamed id) 0 None false [under_gty d])
                 end
